@@ -11,6 +11,15 @@ def opt(b):
 
 def proj(m):
     """Projection of the live MultipartMarkup onto the variables of specs/Multipart.tla."""
+    try:
+        return _proj(m)
+    except (AttributeError, TypeError, KeyError):
+        # the private carry state is laid out differently: the step cannot be compared with the mechanism model (DRIFT),
+        # the property-level clauses (division independence, reference ranges) do not depend on it
+        return {'unprojectable': 1}
+
+
+def _proj(m):
     k = m._markuper
     he = k.headers_eater
     cur = {k._eat_start_boundary: 'start', k._eat_data: 'data', k._eat_headers: 'headers'}.get(k.cur_meth, '?')
